@@ -1,5 +1,8 @@
 import TextxVerif.Proofs.LinkLocLoop
 import TextxVerif.Proofs.PosDict
+import TextxVerif.Proofs.PosDictObj
+import TextxVerif.Props.C06
+import TextxVerif.Props.C28
 /-!
 # C34 — editor-support positions identify references and objects exactly
 
@@ -60,6 +63,24 @@ theorem C34_refs_sorted_exact (files : List FileSpec) (ans : Nat → Nat → Ans
       refine ⟨r, hr, hE, ?_⟩
       obtain ⟨_, _, _, rfl⟩ := hE
       rfl
+
+/-- **… and the condition "loading succeeds" is not a fuel artefact.**  With `enoughFuel files` rounds
+the resolution loop always comes to an end (`C28_total`: it neither runs out of fuel nor fails in an
+unmodelled way): either loading reports an error (a syntax error in a file, or a reference no provider
+resolves — then there is no model and nothing to list), or it succeeds and every file's
+`_pos_crossref_list` is as `C34_refs_sorted_exact` says. -/
+theorem C34_refs_total (files : List FileSpec) (ans : Nat → Nat → Answer)
+    (htext : ∀ f ∈ files, f.refs.Pairwise (fun a b => a.pos < b.pos)) :
+    (∃ e, run files ans (enoughFuel files) = .err e) ∨
+    ∃ ms, run files ans (enoughFuel files) = .ok ms ∧
+      All2 (fun f m => All2 (EntryOf ans) f.refs m.posList ∧
+                       m.posList.map (·.refStart) = f.refs.map (·.pos)) files ms := by
+  have ht := C28_total files ans
+  cases hr : run files ans (enoughFuel files) with
+  | ok ms => exact Or.inr ⟨ms, rfl, C34_refs_sorted_exact files ans _ ms htext hr⟩
+  | err e => exact Or.inl ⟨e, rfl⟩
+  | crash => exact absurd hr (ht.1 _)
+  | fuel => exact absurd hr ht.2
 
 /-- The pinned constructions violate the property: with the end offset taken from
 the *target's* name (`p.abc` resolving to the object named `abc`, 3 characters)
@@ -135,6 +156,96 @@ theorem C34_dict_innermost (t : ONode) :
     · exact self_mem_nodes _
     · exact absurd hsp (h3 n' h)
 
+/-- The order-free geometry `geo` (non-empty spans, children inside their parent, children pairwise
+disjoint) is weaker than `wf` (which also wants the children in text order). -/
+theorem C34_wf_geo (t : ONode) (h : wf t = true) : geo t = true := wf_geo t h
+
+/-- `geo` against an independent reading: the node covers a non-empty text, every child lies inside
+it and has the geometry itself, no two children overlap. -/
+theorem C34_geo_spec (id s e : Nat) (kids : List ONode) :
+    geo (.mk id s e kids) = true ↔
+      s < e ∧ (∀ k ∈ kids, s ≤ k.s ∧ k.e ≤ e ∧ geo k = true) ∧
+        kids.Pairwise (fun a b => a.e ≤ b.s ∨ b.e ≤ a.s) := by
+  simp only [geo, Bool.and_eq_true, decide_eq_true_eq, geoList_iff]
+
+/-- **Innermost, under the geometry that model construction guarantees.**  `C34_dict_innermost`
+with `wf` weakened to `geo`: every entry `span ↦ v` names an object `n` with that span, no object
+strictly inside `n` has the same span, and every object of the model with that span contains `n`
+(or is `n`).  No assumption on the order of the children. -/
+theorem C34_dict_innermost_geo (t : ONode) (hgeo : geo t = true) :
+    ∀ it ∈ posRuleDict t, ∃ n ∈ nodes t, n.id = it.2 ∧ n.span = it.1 ∧
+      (∀ x ∈ properDesc n, x.span ≠ it.1) ∧
+      (∀ n' ∈ nodes t, n'.span = it.1 → n ∈ nodes n') := by
+  intro it hit
+  obtain ⟨n, hn, h1, h2, h3, _⟩ := C34_dict_innermost t it hit
+  refine ⟨n, hn, h1, h2, h3, ?_⟩
+  intro n' hn' hsp
+  rcases geo_comparable t hgeo n hn n' hn' (by rw [h2, hsp]) with h | h
+  · exact h
+  · rw [nodes_eq] at h
+    rcases List.mem_cons.1 h with rfl | h
+    · exact self_mem_nodes _
+    · exact absurd hsp (h3 n' h)
+
+/-- **"The innermost one" is well defined.**  Under `geo` two objects of the model with the same span, neither
+of which has an object with that span strictly inside, are the same node: the value `C34_dict_innermost_geo`
+describes is unique — it does not depend on the order in which `process_node` happens to visit the children. -/
+theorem C34_innermost_unique (t : ONode) (hgeo : geo t = true) (n1 n2 : ONode) (h1 : n1 ∈ nodes t) (h2 : n2 ∈ nodes t)
+    (hs : n1.span = n2.span) (hi1 : ∀ x ∈ properDesc n1, x.span ≠ n1.span)
+    (hi2 : ∀ x ∈ properDesc n2, x.span ≠ n2.span) : n1 = n2 := by
+  rcases geo_comparable t hgeo n1 h1 n2 h2 hs with h | h
+  · rw [nodes_eq] at h
+    rcases List.mem_cons.1 h with h | h
+    · exact h
+    · exact absurd hs (hi2 n1 h)
+  · rw [nodes_eq] at h
+    rcases List.mem_cons.1 h with h | h
+    · exact h.symm
+    · exact absurd hs.symm (hi1 n2 h)
+
+open Obj in
+/-- **The geometry is a theorem about `process_node`, not an assumption.**  For every well-formed
+parse tree, metamodel and truthiness of objects: the containment tree of the model `Obj.build`
+produces (the model of `process_node` of C05 / C06), read as an object tree (`toONode`: identity,
+`_tx_position(_end)`, contents of the containment attributes in `_tx_attrs` order) — also after
+reference resolution (`RefUpdates`) — has the geometry `geo`; with fuel `|h'|` the tree contains
+every object contained in the model. -/
+theorem C34_geo_of_build (tr : Heap → Nat → Bool) (mm : Nat → List MetaAttr) (root : PT) (r : Nat) (s : St)
+    (hwf : root.WF) (h : build tr mm root = some (.obj r, s)) (h' : Heap) (hu : RefUpdates s.heap h')
+    (fuel : Nat) :
+    geo (toONode h' fuel r) = true ∧
+    (h'.length ≤ r + fuel → ∀ x, Reach h' (fun _ => true) r x → ∃ n ∈ nodes (toONode h' fuel r), n.id = x) := by
+  have e := hu.same
+  have hp := processNode_post tr mm root St.empty (.obj r) s Inv.empty h
+  have T := hp.1.inv.tree
+  have post := build_span_post tr mm root _ s hwf h
+  have hne : ∀ x sp, spanOf s.heap x = some sp → sp.1 < sp.2 := by
+    intro x sp hx
+    unfold spanOf at hx
+    cases hg : s.heap.get x with
+    | none => rw [hg] at hx; cases hx
+    | some o =>
+      rw [hg] at hx
+      simp only [Option.map_some, Option.some.injEq] at hx
+      obtain ⟨_, _, _, _, _, hlt, _, _⟩ := C06_span tr mm root _ s hwf h x o hg
+      rw [← hx]; exact hlt
+  have hr : (s.heap.get r).isSome = true := Heap.isSome_iff.mpr (hp.2 r rfl).lt
+  refine ⟨?_, ?_⟩
+  · rw [toONode_congr e]
+    exact geo_toONode T post.si hne fuel r hr
+  · intro hf x hx
+    exact mem_nodes_toONode (e.tree T) hx fuel hf
+
+open Obj in
+/-- … hence for the position map of a built model the innermost clause holds outright. -/
+theorem C34_dict_innermost_built (tr : Heap → Nat → Bool) (mm : Nat → List MetaAttr) (root : PT) (r : Nat) (s : St)
+    (hwf : root.WF) (h : build tr mm root = some (.obj r, s)) (h' : Heap) (hu : RefUpdates s.heap h')
+    (fuel : Nat) :
+    ∀ it ∈ posRuleDict (toONode h' fuel r), ∃ n ∈ nodes (toONode h' fuel r), n.id = it.2 ∧ n.span = it.1 ∧
+      (∀ x ∈ properDesc n, x.span ≠ it.1) ∧
+      (∀ n' ∈ nodes (toONode h' fuel r), n'.span = it.1 → n ∈ nodes n') :=
+  C34_dict_innermost_geo _ (C34_geo_of_build tr mm root r s hwf h h' hu fuel).1
+
 /-- **Order.** In the position map, an entry listed before another one never has a
 different span that contains the other's span — i.e. every span is listed
 before all different spans that contain it. -/
@@ -160,5 +271,15 @@ example : wf (.mk 0 0 30 [.mk 1 0 10 [.mk 2 0 10 [.mk 3 0 6 []]], .mk 4 12 30 [.
 example : posRuleDict (.mk 0 0 30 [.mk 1 0 10 [.mk 2 0 10 [.mk 3 0 6 []]], .mk 4 12 30 [.mk 5 20 30 []]]) =
     [((20, 30), 5), ((12, 30), 4), ((0, 6), 3), ((0, 10), 2), ((0, 30), 0)] := by
   simp [posRuleDict, collect, collectList, setDefault, has, List.mergeSort, keyLe]
+
+/-! non-vacuity of `geo`: children out of text order (not `wf`), still `geo`; and the object tree of
+the model of `Props/C05.lean` (root 0..9, kids at 2, 4, 6, 8; kid 2 nested in kid 1) -/
+example : wf (.mk 0 0 30 [.mk 4 12 30 [], .mk 1 0 10 [.mk 2 0 10 []]]) = false := by decide
+example : geo (.mk 0 0 30 [.mk 4 12 30 [], .mk 1 0 10 [.mk 2 0 10 []]]) = true := by decide
+example : geo (.mk 0 0 30 [.mk 1 0 10 [], .mk 2 8 12 []]) = false := by decide
+example : geo (toONode Obj.exHeap 5 0) = true := by decide +kernel
+/-- the dict before the final sort: post-order of the object tree -/
+example : collect (toONode Obj.exHeap 5 0) [] = [((4, 5), 2), ((2, 5), 1), ((6, 7), 3), ((8, 9), 4), ((0, 9), 0)] := by
+  decide +kernel
 
 end PosDict
